@@ -4,7 +4,8 @@ Case (plain JSON)::
 
     {"np": 3,            # number of declared parameters p0..p2
      "dk": "ce",         # one letter per trailing default: c = constant 'D<i>', e = earlier parameter
-                         #   (p<i-1> ~ '+e'), o = outer variable ``ov`` (render context / module vars)
+                         #   (p<i-1> ~ '+e'), o = outer variable ``ov`` (render context / module vars),
+                         #   s / S = the parameter's own name (p<i>=p<i>) without / with an outer variable p<i>
      "uses": "vk",       # subset of v (varargs), k (kwargs), c (caller) referenced by the macro body
      "npos": 2,          # positional arguments 'A0', 'A1', ...
      "kw": ["p1", "zz"], # keyword argument names, value 'K<name>'
@@ -22,18 +23,20 @@ PID = "C06"
 LEVEL = "exploration"
 EXHAUSTIVE = (
     "every tier enumerates completely: signatures with 0-3 parameters x every vector of 0-3 trailing defaults over "
-    "{constant, earlier parameter, outer variable} x the 8 subsets of {varargs, kwargs, caller} used by the body x 0-5 "
+    "{constant, earlier parameter, outer variable}, plus the vectors with one default naming its own parameter (outer "
+    "variable of that name absent and present) among constants, x the 8 subsets of {varargs, kwargs, caller} used by the body x 0-5 "
     "positional arguments x every set of <= 3 keyword names from {p0, p1, p2, zz} x 7 call shapes (plain, *list, **dict, "
     "both, **dict repeating an explicit keyword, call block, Python call through template.module), sync environment"
 )
 RULE = (
     "itertools enumeration sliced over 16 shards of signature (0-4 parameters; quick 0-3) x default kinds per trailing "
-    "default (<= 3) x body uses of varargs/kwargs/caller x 0-5 positional x keyword-name sets (<= 4 of {p0..p3, zz}; quick "
+    "default (<= 3; full product over constant / earlier parameter / outer variable, plus one self-naming default p=p "
+    "among constants, with and without an outer variable of that name) x body uses of varargs/kwargs/caller x 0-5 positional x keyword-name sets (<= 4 of {p0..p3, zz}; quick "
     "<= 3 of {p0..p2, zz}) x call shape (plain, star, dstar, both, dup, call block, python) x environment (thorough adds the "
     "async environment for the template shapes and, in the sync environment, one more step: 5 parameters, 6 positionals, "
     "keyword p4); each call rendered and compared with the binding specification. "
     "Non-trivial = the call has surplus positionals, an unknown or already-filled keyword, an evaluated default that refers "
-    "to an earlier parameter, star-args / double-star, or a call block; distinct = distinct case."
+    "to an earlier parameter or names its own parameter, star-args / double-star, or a call block; distinct = distinct case."
 )
 ASSUMPTIONS = [
     "binding specification transcribed from the property statement and docs/templates.rst (Macros, Call): positional fill, "
@@ -46,6 +49,9 @@ ASSUMPTIONS = [
     "whether the macro 'may be called from a call tag'); call block x kwargs-without-caller is not generated: whether the "
     "caller lands in kwargs is an undocumented artefact",
     "the default Undefined prints as '' and concatenates as '' (C21 checks that table)",
+    "a parameter name inside a default expression denotes the macro's parameter, which is undefined while unfilled, and "
+    "never an outer variable of that name (tests/test_core_tags.py::TestMacros::test_macro_defaults_self_ref pins this "
+    "shadowing); in particular it is never an internal sentinel",
     "source-level duplicate keywords (m(a=1, a=2)) belong to C01/F20 and are never generated; parameters named "
     "caller/varargs/kwargs are not generated",
 ]
@@ -109,6 +115,9 @@ def spec(case):
             elif kind == "e":
                 v = (vals[i - 1] or "") + "+e"  # an undefined earlier parameter concatenates as ''
                 reasons.add("default_earlier")
+            elif kind in ("s", "S"):
+                v = None  # p=p: the (still unfilled) parameter itself, whether or not an outer p exists
+                reasons.add("default_self")
             else:
                 raise core.HarnessError("default kind %r" % kind)
         else:
@@ -139,6 +148,8 @@ def macro_source(case):
                 sig.append("p%d='D%d'" % (i, i))
             elif kind == "o":
                 sig.append("p%d=ov" % i)
+            elif kind in ("s", "S"):
+                sig.append("p%d=p%d" % (i, i))
             else:
                 if i == 0:
                     raise core.HarnessError("no earlier parameter for p0")
@@ -190,6 +201,17 @@ def source(case):
     return macro_source(case) + "{{ m(%s) }}" % args
 
 
+def outer_vars(case):
+    """Outer variables visible to the macro: ``ov`` and, for default kind S, one named like the parameter."""
+    np_, dk = case["np"], case["dk"]
+    out = {"ov": "OV"}
+    for j, kind in enumerate(dk):
+        if kind == "S":
+            i = np_ - len(dk) + j
+            out["p%d" % i] = "OUTER%d" % i
+    return out
+
+
 def check_case(case):
     from jinja2 import Environment
 
@@ -201,11 +223,11 @@ def check_case(case):
     env = Environment(enable_async=case["env"] == "async")
     src = source(case)
     _, ctx, pypos, pykw = call_parts(case)
-    ctx["ov"] = "OV"
+    ctx.update(outer_vars(case))
     tmpl = env.from_string(src)
     try:
         if case["shape"] == "py":
-            got = str(tmpl.make_module({"ov": "OV"}).m(*pypos, **pykw))
+            got = str(tmpl.make_module(outer_vars(case)).m(*pypos, **pykw))
         else:
             got = tmpl.render(ctx)
     except TypeError:
@@ -240,10 +262,11 @@ def all_cases(tier):
     kwsets = [list(c) for r in range(b["max_kw"] + 1) for c in itertools.combinations(b["kwnames"], r)]
     for np_ in range(b["max_np"] + 1):
         for nd in range(min(np_, b["max_nd"]) + 1):
-            for dk in itertools.product("ceo", repeat=nd):
+            vectors = ["".join(v) for v in itertools.product("ceo", repeat=nd)]
+            vectors += ["c" * j + k + "c" * (nd - j - 1) for j in range(nd) for k in "sS"]
+            for dk in vectors:
                 if nd == np_ and nd and dk[0] == "e":
                     continue  # p0 has no earlier parameter
-                dk = "".join(dk)
                 for uses in uses_all:
                     for npos in range(b["max_pos"] + 1):
                         for kws in kwsets:
@@ -270,7 +293,7 @@ def run_shard(spec_, ctx):
 def floors(total, tier):
     lab = total.labels
     need = ["shape_" + s for s in SHAPES] + ["out_typeerror", "out_text", "nt_surplus_pos", "nt_unknown_kw",
-                                            "nt_filled_kw", "nt_default_earlier", "nt_starargs", "nt_callblock"]
+                                            "nt_filled_kw", "nt_default_earlier", "nt_default_self", "nt_starargs", "nt_callblock"]
     low = [n for n in need if lab.get(n, 0) < 500]
     if low:
         return "classes below floor 500: %s" % ", ".join(low)
